@@ -14,6 +14,7 @@ import TomlVerif.Driver.C06
 import TomlVerif.Driver.C13
 import TomlVerif.Driver.C08
 import TomlVerif.Driver.C07
+import TomlVerif.Driver.C07Typed
 
 open TomlVerif
 
@@ -35,7 +36,7 @@ def dispatch (mode : String) (line : String) : String :=
   | "c06" => Driver.c06 line
   | "c13" => Driver.c13 line
   | "c08" => Driver.c08 line
-  | "c07" => Driver.c07 line
+  | "c07" => if line.startsWith "rtt" then Driver.c07typed line else Driver.c07 line
   | "c17" => Driver.c17 line
   | "c06s" => Driver.c06s line
   | "c14" => Driver.c14 line
